@@ -4,12 +4,13 @@
     godefaults <schemas-id> <pkg> *          →  ok | cerr <object>: <why>         (does the package compile?)
     pydefaults <schemas-id> <pkg> <object>   →  ok <json> | synerr <why> | raise <why> | unsup <why> | fuel
     pydefaults <schemas-id> <pkg> *          →  ok | synerr <object>.<field>      (does the module import?)
+    godefaults cdd <type-vir>                →  ok <type-vir after DisjunctionWithConstantToDefault.processDisjunction>
     godefaults|pydefaults <schemas-id> <pkg> <object> fits
                                              →  ok nodup=<b> (<field>:<declared|none>:<fits|excluded>)*
                                                 (the decidable hypotheses of C10_go_partial / C10_py_partial)
   The schemas are the post-chain IR of the language (`defschemas <id> <vir>` first).
 -/
-import Cog.Sem.DefaultsFits
+import Cog.Sem.DefaultsPasses
 import Cog.Drv.SchemaStore
 namespace Cog.Drv
 open Cog Cog.IR Cog.Sem Cog.Sem.Defaults
@@ -39,8 +40,15 @@ def showPRes : PRes Json → String
   | .unsup w => "unsup " ++ w
   | .fuel => "fuel"
 
+/-- `godefaults cdd <type-vir>`: the model of DisjunctionWithConstantToDefault on one type -/
+def cddLine (ty : String) : String :=
+  match (Sexp.parse ty).bind Vir.tyIn with
+  | some t => "ok " ++ (Vir.tyOut (cddHook t)).render
+  | none => "bad-vir"
+
 def godefaultsLine (rest : String) : IO String := do
   match rest.splitOn " " with
+  | "cdd" :: ty => return cddLine (" ".intercalate ty)
   | [id, pkg, obj] =>
     match ← getSchemas id with
     | none => return "unknown-schemas"
